@@ -44,6 +44,16 @@ def register(reg, P):
     # fori loops
     for n in (0, 1, 3):
         fam[f"fori_static_{n}"] = ((lambda n: (lambda x: lax.fori_loop(0, n, lambda i, a: a * 2.0 + i, x)))(n), [((2,), F32)])
+    fam["fori_static_neg_lower"] = (lambda x: lax.fori_loop(-3, 2, lambda i, a: a * 2.0 + i, x), [((2,), F32)])
+    fam["fori_static_neg_both"] = (lambda x: lax.fori_loop(-4, -1, lambda i, a: a + i.astype(jnp.float32) * a, x), [((2,), F32)])
+    fam["fori_static_empty_rev"] = (lambda x: lax.fori_loop(3, 1, lambda i, a: a * 2.0 + i, x), [((2,), F32)])
+    fam["fori_static_lower_eq_upper"] = (lambda x: lax.fori_loop(2, 2, lambda i, a: a * 2.0 + i, x), [((2,), F32)])
+    fam["fori_index_as_gather"] = (lambda x: lax.fori_loop(1, 3, lambda i, a: a + x[i], jnp.zeros(())), [((4,), F32)])
+    fam["fori_two_carries"] = (lambda x: lax.fori_loop(0, 3, lambda i, s: (s[1] + i, s[0] * 2.0), (x, x + 1.0))[0], [((2,), F32)])
+    fam["scan_index_carry"] = (lambda xs: lax.scan(lambda c, a: ((c[0] + 1, c[1] + a * c[0]), c[1]), (jnp.int32(-2), 0.0), xs)[1], [((3,), F32)])
+    fam["while_negative_counter"] = (lambda x, n: lax.while_loop(lambda s: s[0] < n, lambda s: (s[0] + 1, s[1] + s[0].astype(jnp.float32)), (jnp.int32(-3), x))[1], [((2,), F32), ((), I32)])
+    fam["cond_index_negative"] = (lambda i, x: lax.cond(i < 0, lambda a: a - 1.0, lambda a: a + 1.0, x), [((), I32), ((2,), F32)])
+    fam["switch2_out_of_range"] = (lambda i, x: lax.switch(i, [lambda a: a + 1.0, lambda a: a * 2.0], x) - 1.0, [((), I32), ((2,), F32)])
     fam["fori_static_lower2"] = (lambda x: lax.fori_loop(2, 5, lambda i, a: a + i, x), [((2,), F32)])
     fam["fori_dynamic_upper"] = (lambda x, n: lax.fori_loop(0, n, lambda i, a: a + 1.0, x), [((2,), F32), ((), I32)])
     fam["fori_dynamic_both"] = (lambda x, lo, hi: lax.fori_loop(lo, hi, lambda i, a: a + i.astype(jnp.float32), x), [((2,), F32), ((), I32), ((), I32)])
